@@ -209,23 +209,46 @@ def print_assumptions(prop_file):
 
 
 def run_harness(vharness, cmd, cases, timeout=1200, env=None, extra_args=()):
-    inp = "".join(json.dumps(c, ensure_ascii=False) + "\n" for c in cases)
+    """Run cases through the harness.  If the process dies (fatal runtime error) the first
+    unanswered case is recorded as st=crash and the rest are re-run in a fresh process."""
     e = dict(GOENV)
     if env:
         e.update(env)
-    p = subprocess.run([vharness, cmd] + list(extra_args), input=inp.encode("utf-8"), stdout=subprocess.PIPE, stderr=subprocess.PIPE,
-                       timeout=timeout, env=e)
-    outs = {}
-    for line in p.stdout.decode("utf-8", "replace").splitlines():
-        line = line.strip()
-        if not line.startswith("{"):
-            continue
+    outs, last_rc, last_err = {}, 0, ""
+    todo = list(cases)
+    t_end = time.time() + timeout
+    while todo:
+        inp = "".join(json.dumps(c, ensure_ascii=False) + "\n" for c in todo)
         try:
-            o = json.loads(line)
-        except Exception:
-            continue
-        outs[o.get("id")] = o
-    return outs, p.returncode, p.stderr.decode("utf-8", "replace")[-3000:]
+            p = subprocess.run([vharness, cmd] + list(extra_args), input=inp.encode("utf-8"), stdout=subprocess.PIPE,
+                               stderr=subprocess.PIPE, timeout=max(5, t_end - time.time()), env=e)
+            so, se, rc = p.stdout, p.stderr, p.returncode
+        except subprocess.TimeoutExpired as ex:
+            so, se, rc = ex.stdout or b"", ex.stderr or b"", -9
+        last_rc, last_err = rc, (se or b"").decode("utf-8", "replace")[-3000:]
+        got = 0
+        for line in so.decode("utf-8", "replace").splitlines():
+            line = line.strip()
+            if not line.startswith("{"):
+                continue
+            try:
+                o = json.loads(line)
+            except Exception:
+                continue
+            outs[o.get("id")] = o
+            got += 1
+        rest = [c for c in todo if c.get("id") not in outs]
+        if not rest or rc == -9:
+            for c in rest:
+                outs[c.get("id")] = {"id": c.get("id"), "st": "timeout", "msg": "harness wall-clock budget exhausted"}
+            break
+        # the process died while working on rest[0]
+        site = "unknown"
+        m = re.search(r"github\.com/arr-ai/arrai/([^\s(]+?)\.((?:\(\*?[A-Za-z0-9_]+\)\.)?[A-Za-z0-9_]+)", last_err)
+        head = last_err.strip().splitlines()[0][:200] if last_err.strip() else ""
+        outs[rest[0].get("id")] = {"id": rest[0].get("id"), "st": "crash", "msg": head, "site": site}
+        todo = rest[1:]
+    return outs, last_rc, last_err
 
 
 def coq_eval(name, src, timeout=1200):
